@@ -22,8 +22,8 @@ import (
 
 var (
 	jwksSrv, introSrv, identSrv, metaSrv *vkit.Scripted
-	sigKey                      *ecdsa.PrivateKey
-	otherKey                    *ecdsa.PrivateKey
+	sigKey                               *ecdsa.PrivateKey
+	otherKey                             *ecdsa.PrivateKey
 )
 
 const issuer = "https://issuer.example.com"
@@ -44,8 +44,8 @@ type authn struct {
 	// Type: anonymous unauthorized basic_auth jwt oauth2_introspection generic, and jwt_meta / introspection_meta: the
 	// latter two discover their endpoints with a metadata endpoint, the URL of which is templated with the issuer of the token
 	Type        string
-	ProtoFB     bool   // allow_fallback_on_error in the prototype
-	OverrideFB  *bool  // rule-level override
+	ProtoFB     bool  // allow_fallback_on_error in the prototype
+	OverrideFB  *bool // rule-level override
 	effectiveFB bool
 }
 
@@ -432,7 +432,7 @@ func TestFallbackOnlyOnMissingCredentialsOrOptIn(t *testing.T) {
 			Authz:      rapid.SampledFrom(authzKinds).Draw(t, "authz"),
 			Session:    rapid.SampledFrom([]string{"none", "none", "valid", "invalid", "remotefail"}).Draw(t, "session"),
 			JWKS:       rapid.SampledFrom([]string{"ok", "ok", "ok", "fail"}).Draw(t, "jwks"),
-			Carrier:    rapid.SampledFrom([]string{"", "", "", "query", "query-name-escaped", "form"}).Draw(t, "carrier"),
+			Carrier:    rapid.SampledFrom([]string{"", "", "", "query", "query-name-escaped", "form", "form-GET", "json-body"}).Draw(t, "carrier"),
 		}
 
 		if !strings.HasPrefix(c.Authz, "bearer-") || strings.Contains(c.Authz, "inner-space") {
@@ -491,10 +491,15 @@ func TestFallbackOnlyOnMissingCredentialsOrOptIn(t *testing.T) {
 				lr.RawQuery = "page=2&access_token=" + url.QueryEscape(token)
 			case "query-name-escaped":
 				lr.RawQuery = rapid.SampledFrom([]string{"access%5Ftoken=", "%61ccess_token=", "access_toke%6e="}).Draw(t, "escapedName") + url.QueryEscape(token)
-			case "form":
-				lr.Method = "POST"
+			case "form", "form-GET":
+				// (the method says nothing about where credentials may travel: a body is a body)
+				lr.Method = map[string]string{"form": "POST", "form-GET": "GET"}[c.Carrier]
 				lr.Body = []byte("grant=x&access_token=" + url.QueryEscape(token))
 				lr.Headers = append(lr.Headers, vkit.HeaderKV{Name: "Content-Type", Value: "application/x-www-form-urlencoded"})
+			case "json-body":
+				lr.Method = rapid.SampledFrom([]string{"POST", "PUT", "GET"}).Draw(t, "bodyMethod")
+				lr.Body, _ = json.Marshal(map[string]any{"access_token": token, "other": 1})
+				lr.Headers = append(lr.Headers, vkit.HeaderKV{Name: "Content-Type", Value: "application/json"})
 			}
 
 			vkit.S.LabelIf(c.Carrier != "", "bearer_token_travels_in="+c.Carrier)
